@@ -59,7 +59,11 @@ type world struct {
 	lockFile  *lab.File
 	viol      func(key, format string, args ...any)
 	own       uint64
+	before    func(step int, desc string) // installed on the connections txOn opens
 }
+
+// r1OSHook, when set, sees every file-system mutation LiteFS performs on R1 (op is the call site's label).
+var r1OSHook func(op, call, name string)
 
 // r1Candidate makes the halt-lock holder itself a candidate for the lease (holder-promoted).
 var r1Candidate bool
@@ -87,7 +91,17 @@ func newWorld(wal bool, viol func(string, string, ...any), spawn func(func()), t
 		}
 	}
 	cl.AddNode("P", true, nil)
-	cl.AddNode("R1", r1Candidate, func(cfg *lab.NodeConfig) { cfg.ExitImage = true })
+	cl.AddNode("R1", r1Candidate, func(cfg *lab.NodeConfig) {
+		cfg.ExitImage = true
+		cfg.WrapOS = func(inner litefs.OS) litefs.OS {
+			return &lab.HookOS{Inner: inner, Before: func(op, call, name string) error {
+				if r1OSHook != nil {
+					r1OSHook(op, call, name)
+				}
+				return nil
+			}}
+		}
+	})
 	cl.AddNode("R2", r2Candidate, nil)
 	if err := cl.Start("P"); err != nil || cl.WaitPrimary(5*time.Second) == nil {
 		return w, "start P"
@@ -149,6 +163,7 @@ func (w *world) txOn(n *lab.Node, busyTries int, mods []uint32) (bool, error, st
 	tries := 0
 	c.Busy = func() bool { tries++; time.Sleep(500 * time.Microsecond); return tries < busyTries }
 	defer c.Close()
+	c.Before = w.before
 	if w.wal {
 		fr := append([]uint32{1}, mods...)
 		r := c.RunWTx(pager.WTx{Frames: fr, Outcome: "commit"}, w.img)
@@ -639,6 +654,80 @@ func run1(t *testing.T, c Case) (res Result) {
 			lab.Settle(12 * time.Second) // the lock on the former primary's books expires (TTL 8 s)
 			w.checkAll("holder-promoted")
 			res.Class = "holder-promoted-ok"
+		case "release-during-commit":
+			// The application that owns the halt lock gives it back (another file handle, or the "litefs run
+			// -with-halt-lock-on" child exiting) while a second connection on the same node is in the middle of a
+			// transaction. Whatever that connection gets acknowledged was forwarded to the primary first; what the
+			// primary does not have, the replica does not have either.
+			// Variant 0: the release arrives at the transaction's first write; 1: right before its commit step; 2: in the
+			// middle of LiteFS's handling of the commit step (its first file-system mutation there).
+			if err := w.acquire(); err != nil {
+				viol("C13/acquire-failed", "acquiring the halt lock failed: %v", err)
+				return
+			}
+			done := make(chan error, 1)
+			fired, wrote := false, false
+			w.before = func(step int, desc string) {
+				if fired {
+					return
+				}
+				isWrite := strings.HasPrefix(desc, "db write page") || strings.HasPrefix(desc, "wal write")
+				hit := false
+				if c.Variant == 0 {
+					hit = isWrite
+				} else {
+					hit = wrote && (desc == "unlink journal" || strings.HasPrefix(desc, "unlock shm"))
+				}
+				wrote = wrote || isWrite
+				if !hit {
+					return
+				}
+				fired = true
+				go func() { done <- w.release() }()
+				synctest.Wait() // the release runs until it has to wait for the transaction's locks
+			}
+			if c.Variant == 2 {
+				// inside LiteFS's own commit: after it decided that the node may write, before the transaction file exists
+				w.before = nil
+				r1OSHook = func(op, call, name string) {
+					if fired || !(strings.HasPrefix(op, "COMMITJOURNAL:") || strings.HasPrefix(op, "COMMITWAL:")) {
+						return
+					}
+					fired = true
+					go func() { done <- w.release() }()
+					synctest.Wait()
+				}
+				defer func() { r1OSHook = nil }()
+			}
+			ok, terr, step := w.txOn(R, 3, []uint32{2, 3})
+			w.before = nil
+			r1OSHook = nil
+			if !fired {
+				res.Harness = "the release was never injected"
+				return
+			}
+			var relErr error
+			select {
+			case relErr = <-done:
+			case <-time.After(30 * time.Second):
+				viol("C13/release-hangs", "the release issued during a transaction did not return within 30 s after the transaction ended")
+				return
+			}
+			lab.Settle(500 * time.Millisecond)
+			if pp, rp := posOf(P), posOf(R); ok && pp != rp {
+				viol("C13/ack-before-apply", "a commit on the halt holder was acknowledged while the lock was being released: R=%s but the primary is at %s (release returned %v)", rp, pp, relErr)
+			} else if !ok && pp != rp {
+				viol("C13/holder-diverged", "a commit on the halt holder failed at %q (%v) while the lock was being released, yet R=%s and the primary is at %s", step, terr, rp, pp)
+			}
+			if P.DB("db").VerifHaltLockID() != 0 && relErr == nil {
+				viol("C13/halt-survives-release", "the primary still holds the halt lock after a release that reported success")
+			}
+			lab.Settle(10 * time.Second)
+			if okP, err, st := w.txOn(P, 20, []uint32{3}); !okP {
+				viol("C13/writer-after-release", "after the release a local transaction on the primary failed at %q: %v", st, err)
+			}
+			w.checkAll("release-during-commit")
+			res.Class = fmt.Sprintf("release-during-commit committed=%v release-error=%v", ok, relErr != nil)
 		case "primary-change":
 			// The primary changes while R1 holds the halt lock (Variant%2: 0 = Demote, 1 = hand-off to R2), and R1 commits
 			// Variant/2: 0 = at once, 1 = after the new primary is up. Whatever happens to that commit, if the application
@@ -1111,7 +1200,8 @@ func TestCheck(t *testing.T) {
 			cases = append(cases, Case{Scenario: "lost-replies", WAL: wal, Variant: v})
 		}
 		cases = append(cases, Case{Scenario: "lagging-acquire", WAL: wal, Variant: 0}, Case{Scenario: "lagging-acquire", WAL: wal, Variant: 1},
-			Case{Scenario: "acquire-timeout", WAL: wal}, Case{Scenario: "expiry-snapshot", WAL: wal}, Case{Scenario: "holder-promoted", WAL: wal})
+			Case{Scenario: "acquire-timeout", WAL: wal}, Case{Scenario: "expiry-snapshot", WAL: wal}, Case{Scenario: "holder-promoted", WAL: wal},
+			Case{Scenario: "release-during-commit", WAL: wal, Variant: 0}, Case{Scenario: "release-during-commit", WAL: wal, Variant: 1}, Case{Scenario: "release-during-commit", WAL: wal, Variant: 2})
 		for v := 0; v < 18; v++ {
 			cases = append(cases, Case{Scenario: "tx-matrix", WAL: wal, Variant: v})
 		}
